@@ -493,7 +493,12 @@ class SymNum(Sym):
         return True if r is NotImplemented else r
 
     def __hash__(s):
-        # membership of a symbolic number in a set / dict keys would silently compare term identity: not carried
+        # sets / dict keys of symbolic numbers: carried for small integers by forking on the value (then python's own
+        # hash/eq protocol is exact on that path); anything else is not carried
+        if z3.is_int(s.t) and Ctx.cur is not None:
+            for k in range(-8, 9):
+                if SymBool(s.t == k):
+                    return hash(k)
         s._unsup("hash")
 
     def __bool__(s):
